@@ -285,3 +285,36 @@ def whitespace_check(prog, R, rule):
     R.ob(rule, "is_whitespace == Pattern_White_Space", got == WHITESPACE and not amb, b.at,
          f"{len(alpha)} characters evaluated; whitespace = {[hex(c) for c in got]}" if got == WHITESPACE and not amb else
          f"is_whitespace differs from the documented table: missing {[hex(c) for c in WHITESPACE if c not in got]}, extra {[hex(c) for c in got if c not in WHITESPACE]}, undecided {[hex(c) for c in amb][:4]} (a line break or blank of that kind between two tokens becomes an error token)")
+
+
+def leading_zero_check(prog, R, rule):
+    """`Cursor::number('0')` dispatches on the character after the leading 0 (base prefix, more digits, '.', exponent,
+    or "just a 0").  Every character that the decimal digit scanner consumes (its table: digits and '_') continues
+    the decimal literal, so for each of them the dispatch must reach eat_decimal_digits instead of returning after
+    the 0: otherwise `0_5.25` / `0_5e3` / `0_5ns` lex differently from `1_5.25` / `1_5e3` / `1_5ns`."""
+    fn = "oq3_lexer::Cursor::number"
+    b = prog.body(fn)
+    t = table(prog, "oq3_lexer::Cursor::eat_decimal_digits")
+    if b is None or t is None:
+        R.ob(rule, "number", False, b.at if b else "", "Cursor::number or the decimal digit table not found")
+        return
+    consumed = sorted(c for c, v in t.items() if v[0])
+    bad, n = [], 0
+    for c in consumed:
+        def model(se, st, tm, cal, args, site, c=c):
+            if cal.endswith("Cursor::first"):
+                nf = sum(1 for nm, a, bb in st.calls if nm.endswith("Cursor::first"))
+                return ("c", "char", c) if nf == 0 else None
+            return None
+        se = SymExec(prog, b, max_visits=1, max_paths=4000, call_model=model)
+        env = se.init_env()
+        env[2] = ("c", "char", 48)
+        ps = [p for p in se.paths(env) if "__diverged__" not in p.env]      # the debug assertion's panic paths are not results
+        n += len(ps)
+        for p in ps:
+            if not any(nm.endswith("Cursor::eat_decimal_digits") for nm, a, bb in p.calls):
+                bad.append(chr(c))
+                break
+    R.ob(rule, "number:after-leading-zero", not bad and n > 0, b.at,
+         f"after a leading 0 every character of the decimal scanner's class {''.join(chr(c) for c in consumed)!r} continues the decimal scan ({n} paths)" if not bad else
+         f"after a leading 0 the characters {bad} end the literal although eat_decimal_digits consumes them: `0{bad[0]}5.25` loses its fraction/exponent/unit while `1{bad[0]}5.25` keeps it")
